@@ -6,6 +6,7 @@ REG_DRAFT = dict(
     note='ASCII programs; one-letter names; no break/continue/return (C06 owns variables outliving a block that is left early) and no read of a top-level-block binding after its block (the interpreter splices top-level blocks). Function bodies have no free local variables. Rename of functions/types/methods is only counted.',
     design_ref='DESIGN.md §6 C19',
 )
+REG = REG_DRAFT
 
 
 import itertools
@@ -76,23 +77,25 @@ def programs(quick):
     blocks1 = block_stmts(inner0)
     pair_leaves = [L[1]] if quick else L
     b1 = b0 + bodies_over(blocks1, L, pair_leaves)
+    all_containers = ["top-block", "fun-param", "top-level", "top-block+global-fun", "top-level+global-fun", "method-receiver", "method-param"]
     if quick:
-        tops = b1
-    else:
-        # one more nesting level: blocks over (single block statements of level 1, each followed by a print) and two-binder bodies
-        inner1 = [with_prints([b]) for b in blocks1]
-        blocks2 = block_stmts(inner1)
-        tops = b1 + bodies_over(blocks2, L, [L[1]])
-    containers = ["top-block", "fun-param", "top-level", "top-block+global-fun", "top-level+global-fun", "method-receiver", "method-param"] if not quick else \
-        ["top-block", "fun-param", "top-level", "top-block+global-fun"]
-    for cont in containers:
-        for body in tops:
-            yield cont, with_prints(body)
-    if quick:
+        for cont in ["top-block", "fun-param", "top-level", "top-block+global-fun"]:
+            for body in b1:
+                yield cont, with_prints(body)
         # method receiver / parameter containers over the leaf bodies only
         for cont in ("method-receiver", "method-param"):
             for body in b0:
                 yield cont, with_prints(body)
+        return
+    for cont in all_containers:
+        for body in b1:
+            yield cont, with_prints(body)
+    # one more nesting level (blocks over single level-1 block statements, each followed by a print) in the three basic containers
+    inner1 = [with_prints([b]) for b in blocks1]
+    blocks2 = block_stmts(inner1)
+    for cont in all_containers[:3]:
+        for body in bodies_over(blocks2, L, [L[1]]):
+            yield cont, with_prints(body)
 
 
 def renumber(tree, counter):
